@@ -68,6 +68,8 @@ class Report:
         self.repo = repo
         self.obligations: List[Obligation] = []
         self.floors: Dict[str, Dict[str, int]] = {}
+        # role label of a function found by role (its private name may change): known findings are keyed by the label
+        self.roles: Dict[str, str] = {}
         self.notes: List[str] = []
         self.analysed: Dict[str, Any] = {}
         self.rules_applied: Dict[str, str] = {}
@@ -119,7 +121,7 @@ class Report:
             for e in data.get("findings", []):
                 if e.get("status") != "known":
                     continue
-                if e.get("property") == self.prop and e.get("rule") == ob.rule and e.get("site") == ob.site and (
+                if e.get("property") == self.prop and e.get("rule") == ob.rule and e.get("site") in (ob.site, self.roles.get(ob.site)) and (
                     not e.get("construct") or e.get("construct") == ob.key
                 ):
                     ob.known = True
